@@ -1,6 +1,6 @@
 (* C04 - Episodes end exactly when all work is delivered and report the true makespan. *)
 From Coq Require Import List ZArith Bool.
-From JSL Require Import Base.Res SM.Types SM.Util SM.Handler SM.Step SM.Middleware SMP.Decline.
+From JSL Require Import Base.Res SM.Types SM.Util SM.Handler SM.Step SM.Middleware SM.Inv SM.Example SMP.Decline SMP.Clock SMP.LiftSide SMP.OutputDone.
 Import ListNotations.
 
 Theorem C04_done_raises :
@@ -28,3 +28,33 @@ Theorem C04_makespan_is_clock :
   forall e, e_term e = true -> env_makespan e = Some (s_now (r_x (e_res e))).
 Proof. exact env_makespan_is_clock. Qed.
 Print Assumptions C04_makespan_is_clock.
+
+(* "terminated => every operation of every job is done": a job lying in an OUTPUT buffer has all its
+   operations done (output_done_b) in every state reachable from a compiled initial state (fresh2_b) under any
+   action sequence, so a state in which every job lies in an output buffer (= the terminated flag, C04_term_flag)
+   has finished all work. PARTIAL: two side conditions on the applied TRANSIT transitions (reachS2 = reach with
+   side2 on every micro-log): the job an AGV takes is not in process (transit_side_b) and is the job it claimed
+   (transit_claim_b); both are evaluated by the monitors on every transition the implementation applies. *)
+Theorem C04_output_done_partial :
+  forall (sigma : oracle) (i : inst) (fuel : nat) (x0 : state) (joker0 : Z) (ta : bool) (r : result) (m : mw),
+    inst_nonneg_b i = true -> clock_b x0 = true -> fresh2_b i x0 = true ->
+    reachS2 sigma i fuel x0 joker0 ta r m -> output_done_b i (r_x r) = true.
+Proof. intros. eapply reachS2_output_done; eauto. Qed.
+Print Assumptions C04_output_done_partial.
+
+Theorem C04_terminated_all_done_partial :
+  forall (sigma : oracle) (i : inst) (fuel : nat) (x0 : state) (joker0 : Z) (ta : bool) (r : result) (m : mw),
+    inst_nonneg_b i = true -> clock_b x0 = true -> fresh2_b i x0 = true ->
+    reachS2 sigma i fuel x0 joker0 ta r m -> all_in_output i (r_x r) = true ->
+    forallb all_operations_done (s_jobs (r_x r)) = true.
+Proof. intros. eapply reachS2_terminated_all_done; eauto. Qed.
+Print Assumptions C04_terminated_all_done_partial.
+
+(* non-vacuity: the compiled initial state of a real instance satisfies the hypotheses, and the terminal state
+   of the always-accept episode is reached WITH both side conditions (runG checks them on every micro-log) *)
+Example C04_hypotheses_satisfiable : fresh2_b ex_inst ex_state = true.
+Proof. vm_compute. reflexivity. Qed.
+Example C04_terminal_reachable :
+  exists r m, runG ex_sigma ex_inst side2 100 ex_state 3%Z true [1;1;1;1;1;1;1;1;1;1]%Z = Some (r, m)
+              /\ all_in_output ex_inst (r_x r) = true /\ r_offers r = [].
+Proof. vm_compute. eexists; eexists; repeat split. Qed.
